@@ -221,40 +221,40 @@ META = {
              "decision (deliver only on equal id, lower ids dropped, higher ids never delivered to the current stream) and the "
              "stream's own guard (a packet with a foreign id or arriving after termination changes nothing, in every state) — "
              "plus strict growth of client ids. The system-level statement over all interleavings of two endpoints is not a "
-             "theorem: it is explored by the e2e suite with tagged payloads (cross-talk would be seen as a foreign tag).",
+             "theorem: it is explored by the e2e suite with tagged payloads (cross-talk would be seen as a foreign tag). Added in the second session: the manager itself is modelled — a protocol checker over its event trace (Drpc.Manager.Proto, theorems in Drpc.Props.Manager about every accepted trace) and an atomic-step model of all its goroutines (Drpc.Manager.Sys) proved to refine the checker and to be free of internal deadlock under stated hypotheses (Drpc.Props.ManagerSys); every event trace the real managers produce in the e2e worlds is replayed on both (accepted by the checker up to termination; a member of the model's traces, by search). Further theorems: requests on one connection do not mix and an abandoned call's metadata is not inherited (Drpc.Props.Request, composition of codec, reader and accept loop); each unary call sends its own request despite the shared buffer (Drpc.Props.Conn).",
         design_ref="DESIGN.md §6 C02",
         note=NOTE_COMMON + "Two-endpoint composition explored, not proved.",
-        technique="Lean 4 theorems on dispatch + stream guards; e2e exploration under a director with tagged payloads",
+        technique="Lean 4 theorems: dispatch + stream guards, manager protocol checker and atomic-step manager model (refinement proved), request composition, Conn buffer model; ties: fingerprints, manager event traces replayed on checker and model, metadata scoping and Conn wire correspondence; e2e exploration under a director with tagged payloads as failing-input search",
     ),
     "C04": dict(
         text="Proof, partial: on the atomic-step stream model: Cancel terminates an idle stream with the context's error and closes "
              "the packet buffer; a receive parked in Get then returns that error; SendCancel's lock acquisitions are TryLocks "
              "and never wait; with a writer active it reports busy. The default-mode hang (send parked in the transport + "
              "terminal call holding the transition lock + Cancel) is proved reachable and quiescent (cancel_hang_counterexample) "
-             "and replayed on the code: known finding. The watcher goroutine and the peer side are explored by the e2e suite.",
+             "and replayed on the code: known finding. The watcher goroutine and the peer side are explored by the e2e suite. Added in the second session: the manager itself is modelled — a protocol checker over its event trace (Drpc.Manager.Proto, theorems in Drpc.Props.Manager about every accepted trace) and an atomic-step model of all its goroutines (Drpc.Manager.Sys) proved to refine the checker and to be free of internal deadlock under stated hypotheses (Drpc.Props.ManagerSys); every event trace the real managers produce in the e2e worlds is replayed on both (accepted by the checker up to termination; a member of the model's traces, by search). For this property: a caller whose context is done is never blocked inside the manager (ctx_cancel_unblocks_caller), the hand-off select without a context branch never waits (handoff_never_waits_long); stream level: exact classification of blocked threads, no_internal_deadlock, terminated_quiescent_all_done.",
         design_ref="DESIGN.md §6 C04, §9-7",
         note=NOTE_COMMON + "Progress is judged as safety at quiescent points.",
-        technique="Lean 4 theorems (symbolic execution of the atomic-step stream model) + e2e exploration under a director; known findings by signature",
+        technique="Lean 4 theorems on the stream model (blocking classification, hang counterexample) and on the manager model (cancellability of every waiting position); e2e exploration: grid of in-flight sets x stalled/flowing x soft/hard, cancel before invoke / at hand-off / select races, server-side cancel",
     ),
     "C06": dict(
         text="Proof, partial: stream-level theorems for what the server does when a handler returns (after the fix: commit "
              "5c5c1df found by this obligation): the stream is terminated, every later packet for it returns at once, a reader "
              "already parked in Put is released by termination; and the counterexample for the old behaviour (reader parked "
              "forever after a handler returned without draining). The property itself (any history, then a probe) is explored "
-             "by the e2e probe family.",
+             "by the e2e probe family. Added in the second session: the manager itself is modelled — a protocol checker over its event trace (Drpc.Manager.Proto, theorems in Drpc.Props.Manager about every accepted trace) and an atomic-step model of all its goroutines (Drpc.Manager.Sys) proved to refine the checker and to be free of internal deadlock under stated hypotheses (Drpc.Props.ManagerSys); every event trace the real managers produce in the e2e worlds is replayed on both (accepted by the checker up to termination; a member of the model's traces, by search). For this property: ready_when_quiet (a stuck, non-terminated manager whose streams have all finished has an idle stream manager, no token pending and the semaphore free or held by a server waiting for an invoke) and token_send_never_blocks, after the three defects these proofs and the e2e probes exposed were repaired (c4bccc7, 0eebf00, 110f4d6).",
         design_ref="DESIGN.md §6 C06, §9-8",
         note=NOTE_COMMON + "Judged at quiescence with a flowing transport.",
-        technique="Lean 4 theorems on the stream model + e2e exploration (probe after a grid of endings)",
+        technique="Lean 4 theorems on the stream model and on the manager model (ready_when_quiet, token_send_never_blocks, semaphore alternation); e2e exploration: probe after a grid of endings incl. cancel / marshal error before the invoke, publish-after-release, soft-cancel tokens, handler flush, hostile peers",
     ),
     "C12": dict(
         text="Proof, partial: stream-level teardown: Cancel (what Manager.Close / termination applies to the active stream) does not "
              "wait for a writer parked in the transport, and once the closed transport fails that write the sender returns the "
              "cancel error, releases the lock and its checkFinished finishes the stream and emits the single fin token the "
              "manager's watcher waits for. Manager goroutines, exactly-once transport close and Serve's wait are explored by the "
-             "e2e close/fault families (goroutine census at quiescence).",
+             "e2e close/fault families (goroutine census at quiescence). Added in the second session: the manager itself is modelled — a protocol checker over its event trace (Drpc.Manager.Proto, theorems in Drpc.Props.Manager about every accepted trace) and an atomic-step model of all its goroutines (Drpc.Manager.Sys) proved to refine the checker and to be free of internal deadlock under stated hypotheses (Drpc.Props.ManagerSys); every event trace the real managers produce in the e2e worlds is replayed on both (accepted by the checker up to termination; a member of the model's traces, by search). For this property: close_completes_client / close_completes_serve, termination_unblocks_everything (manager model), transport closed at most once and only after term (every accepted trace), and the Serve/Tracker model (Drpc.Props.Serve: Serve returns only after every tracked goroutine exited, serve_completes) with its own correspondence (real Server.Serve over a scripted listener against the model driver).",
         design_ref="DESIGN.md §6 C12",
         note=NOTE_COMMON + "Goroutine census by runtime.Stack.",
-        technique="Lean 4 theorems on the stream model + e2e exploration with Close / faults at every transport step",
+        technique="Lean 4 theorems on the stream model, the manager model (Close completes, termination unblocks everything) and the Serve/Tracker model; correspondence: manager traces, `serve ops=` histories; e2e exploration with Close / faults at every transport step, lazy-closing transport, hostile peers, goroutine census",
     ),
     "C01": dict(
         text="Proof: the pure data path is proved in full: for every list of packets with increasing ids, every split size, every "
@@ -273,10 +273,10 @@ META = {
              "read (no_partial_packet_surfaced), for every cut of a valid stream and every final error the packets returned are a "
              "prefix of what was sent and the error is the transport's (delivered_is_prefix_despite_fault), bytes appended after a "
              "packet boundary can never change what was already returned (garbage_*). Termination on a read error, failing of pending "
-             "and later calls, Closed() and absence of panics are explored by the e2e fault family (fault position enumerated).",
+             "and later calls, Closed() and absence of panics are explored by the e2e fault family (fault position enumerated). Added in the second session: the manager itself is modelled — a protocol checker over its event trace (Drpc.Manager.Proto, theorems in Drpc.Props.Manager about every accepted trace) and an atomic-step model of all its goroutines (Drpc.Manager.Sys) proved to refine the checker and to be free of internal deadlock under stated hypotheses (Drpc.Props.ManagerSys); every event trace the real managers produce in the e2e worlds is replayed on both (accepted by the checker up to termination; a member of the model's traces, by search). For this property: read_error_terminates and termination_unblocks_everything (after a transport failure no call is left blocked in the manager model).",
         design_ref="DESIGN.md §6 C05",
         note=NOTE_COMMON + "Transport contract assumed: a broken transport fails all its pending and later I/O.",
-        technique="Lean 4 theorems on the reader model + e2e fault enumeration under a director",
+        technique="Lean 4 theorems on the reader model and the manager model (a read error terminates the manager, termination unblocks every call); e2e exploration with the fault position enumerated, stalled large writes, select races",
     ),
     "C19": dict(
         text="Proof, full for Signal; for Chan full under 'at most one Close (and no Send/Full next to it)'. drpcsignal.Signal and "
@@ -320,10 +320,10 @@ META = {
              "failed, a conforming reader (the C09 reference) never rejects it, and finished_is_final: once the finished flag is set no "
              "thread can append a frame or start a transport write (the store-buffering argument over inspectMutex.held and the three "
              "reads of checkFinished). Partial: the ordering of successive streams on one connection (manager) is explored by the e2e "
-             "suite's wire oracle, not proved.",
+             "suite's wire oracle, not proved. Added in the second session: the manager itself is modelled — a protocol checker over its event trace (Drpc.Manager.Proto, theorems in Drpc.Props.Manager about every accepted trace) and an atomic-step model of all its goroutines (Drpc.Manager.Sys) proved to refine the checker and to be free of internal deadlock under stated hypotheses (Drpc.Props.ManagerSys); every event trace the real managers produce in the e2e worlds is replayed on both (accepted by the checker up to termination; a member of the model's traces, by search). For this property: next_stream_after_previous_finished, one_stream_at_a_time, publish_under_semaphore and the corresponding sys_ corollaries: frames of a later stream cannot precede frames of an earlier one because the later stream does not exist before the earlier is finished; one manager per connection (Serve model + oracle).",
         design_ref="DESIGN.md §6 C07, Appendix A.6",
         note=NOTE_COMMON + "Sequential consistency of sync/atomic and mutex semantics trusted; thread-local steps merged (commute).",
-        technique="Lean 4 inductive invariants over an atomic-step transition system with unbounded threads + trace validation + wire oracles",
+        technique="Lean 4 theorems on the stream model (lock ownership, wire = history, finished is final) and on the manager model (succession of streams); correspondence: stream histories under the director, manager traces; reference frame parser over every transport write (stream suite and whole connections)",
     ),
 }
 
